@@ -8,7 +8,8 @@ TRANSLATED = {
     "C11": "cli.py tile_allsky_impl re-translated into a Gallina decision tree of calls on every run (harness/py2coq.py) and proved equal to the model of the command under every valuation of its settings",
     "C20": "cli.py tile_multi_tan_impl re-translated into a Gallina decision tree of calls on every run (harness/py2coq.py) and proved equal to the model of the command",
     "C07": "fits_tiler.py FitsTiler._tile_toast re-translated into a Gallina script of calls on every run (harness/py2coq.py) and proved equal to the model script",
-    "C17": "pyramid.py PyramidIO tile naming re-translated into Gallina on every run (harness/py2coq.py) and proved equal to the model",
+    "C17": "pyramid.py PyramidIO tile naming re-translated into Gallina on every run (harness/py2coq.py) and proved equal to the model; cli.py tile_wwtl_impl re-translated into a Gallina decision tree of calls (assigned calls included) and proved equal to the model of the command under every valuation of its settings",
+    "C06": "cli.py tile_healpix_impl re-translated into a Gallina script of calls on every run (harness/py2coq.py) and proved equal to the model of the command",
 }
 
 
